@@ -216,6 +216,7 @@ func TestVerifCtl(t *testing.T) {
 				if sw != nil {
 					res.SliceBlocks = writeJobSlices(sw, s, fmt.Sprintf("%s:%d:%s", f.name, sd, parts[2]))
 					res.SliceBlocks += writeBatchSlices(sw, s, fmt.Sprintf("%s:%d:%s", f.name, sd, parts[2]))
+					res.SliceBlocks += writeLifeSlices(sw, s, fmt.Sprintf("%s:%d:%s", f.name, sd, parts[2]))
 				}
 				enc.Encode(res)
 				if tracedir != "" {
@@ -247,6 +248,7 @@ func TestVerifCtl(t *testing.T) {
 			if sw != nil && len(s.Panics) == 0 {
 				res.SliceBlocks = writeJobSlices(sw, s, fmt.Sprintf("%s:%d:%s", f.name, seed, strategy))
 				res.SliceBlocks += writeBatchSlices(sw, s, fmt.Sprintf("%s:%d:%s", f.name, seed, strategy))
+				res.SliceBlocks += writeLifeSlices(sw, s, fmt.Sprintf("%s:%d:%s", f.name, seed, strategy))
 			}
 			enc.Encode(res)
 			w.Flush()
